@@ -420,11 +420,11 @@ async def drive(scen, sched_seed, stop, recorder=None):
         from graphql.execution.executor import Executor as _Ex
         _orig_sib = _Ex.__dict__["settle_in_background"]
 
-        def _sib(ex, awaitables, _orig=_orig_sib):
+        def _sib(ex, awaitables, *a, **k):
             bg = getattr(ex, "background_futures", None)
             if bg is not None and not any(bg is b for b in bg_sets):
                 bg_sets.append(bg)
-            return _orig(ex, awaitables)
+            return _orig_sib(ex, awaitables, *a, **k)
         _Ex.settle_in_background = _sib
         bg_saved = (_Ex, _orig_sib)
     except Exception:  # noqa: BLE001
@@ -1109,10 +1109,10 @@ class Recorder:
         if E is not None:
             e_bg, e_hook = E.settle_in_background, E.run_async_work_finished_hook
 
-            def sib(ex, awaitables):
+            def sib(ex, awaitables, *a, **k):
                 bg = getattr(ex, "background_futures", None)
                 before = set(bg) if bg is not None else set()
-                e_bg(ex, awaitables)
+                e_bg(ex, awaitables, *a, **k)
                 if bg is not None:
                     tr = rec_self.hook_traces.setdefault(id(bg), [])
                     rec_self.keep.append(bg)
